@@ -334,14 +334,15 @@ func (g *gen) field(fieldName string, fieldType types.Type) (string, error) {
 			return fmt.Sprintf("uint64(uintptr(%s))", fieldName), nil
 		case types.Uint64:
 			return fmt.Sprintf("%s", underlying(fieldName, fieldType, typ)), nil
+		// -0 and +0 are equal, but have different bits. Adding zero turns -0 into +0 and does not change any other number.
 		case types.Float32:
-			return fmt.Sprintf("uint64(%s.Float32bits(%s))", g.mathPkg(), underlying(fieldName, fieldType, typ)), nil
+			return fmt.Sprintf("uint64(%s.Float32bits(%s + 0))", g.mathPkg(), underlying(fieldName, fieldType, typ)), nil
 		case types.Float64:
-			return fmt.Sprintf("%s.Float64bits(%s)", g.mathPkg(), underlying(fieldName, fieldType, typ)), nil
+			return fmt.Sprintf("%s.Float64bits(%s + 0)", g.mathPkg(), underlying(fieldName, fieldType, typ)), nil
 		case types.Complex64:
-			return fmt.Sprintf("(31 * ((31 * 17) + uint64(%s.Float32bits(real(%s))))) + uint64(%s.Float32bits(imag(%s)))", g.mathPkg(), fieldName, g.mathPkg(), fieldName), nil
+			return fmt.Sprintf("(31 * ((31 * 17) + uint64(%s.Float32bits(real(%s) + 0)))) + uint64(%s.Float32bits(imag(%s) + 0))", g.mathPkg(), fieldName, g.mathPkg(), fieldName), nil
 		case types.Complex128:
-			return fmt.Sprintf("(31 * ((31 * 17) + %s.Float64bits(real(%s)))) + %s.Float64bits(imag(%s))", g.mathPkg(), fieldName, g.mathPkg(), fieldName), nil
+			return fmt.Sprintf("(31 * ((31 * 17) + %s.Float64bits(real(%s) + 0))) + %s.Float64bits(imag(%s) + 0)", g.mathPkg(), fieldName, g.mathPkg(), fieldName), nil
 		case types.String, types.UntypedString:
 			return fmt.Sprintf("%s(%s)", g.GetFuncName(fieldType), fieldName), nil
 		}
